@@ -38,7 +38,11 @@ def dump(src, filt, extra_flags=()):
     flags = configure.flags_for(src) if not extra_flags or extra_flags[0] != '--flags-of' else configure.flags_for(extra_flags[1])
     if extra_flags and extra_flags[0] == '--flags-of':
         extra_flags = extra_flags[2:]
-    cmd = ['clang++', '-fsyntax-only', '-Wno-everything', '-ferror-limit=0'] + flags + list(extra_flags) + \
+    # `--clang=<binary>` among the extra flags selects another installed clang for this one dump (C05: clang 16 types the
+    # libstdc++-12 std::views pipeline of chooseMechanism that clang 14 cannot); default stays clang++ (14)
+    clang = next((f[len('--clang='):] for f in extra_flags if f.startswith('--clang=')), 'clang++')
+    extra_flags = [f for f in extra_flags if not f.startswith('--clang=')]
+    cmd = [clang, '-fsyntax-only', '-Wno-everything', '-ferror-limit=0'] + flags + list(extra_flags) + \
           ['-Xclang', '-ast-dump=json', '-Xclang', '-ast-dump-filter=' + filt, src]
     p = subprocess.run(cmd, stdout=subprocess.PIPE, stderr=subprocess.PIPE, text=True)
     errs = [l for l in p.stderr.splitlines() if ' error: ' in l]
